@@ -716,6 +716,24 @@ func buildSpaces(thorough bool) []space {
 		}
 		return string(out)
 	}})
+	// E: every rune-boundary prefix of literal spellings that use every escape /
+	// number / comment form (also ones the lexer may learn later: \x, \u, \U, octal),
+	// behind 0..15 blanks: the blanks vary the rune count of the source against the
+	// size class of the buffer the lexer makes from it (an index one past the text
+	// is caught or not depending on the spare capacity)
+	var esc []string
+	for _, lit := range []string{
+		"\"\\x41\\u00e9\\U0001F600\\101\\n\\t\\\\\\\"a\"", "'\\x41\\u00e9'", "f(\"\\x4g\")", "x = \"\\u12\"", "`a\nb`", "0x1F + 0b101", "1.5e+10 - 1e-5", "a /* c */ b", "a # c\nb",
+		"\"\\0\"", "\"\\8\"", "'\\''", "\"é日\\x\"",
+	} {
+		rs := []rune(lit)
+		for n := 1; n <= len(rs); n++ {
+			for pad := 0; pad < 16; pad++ {
+				esc = append(esc, strings.Repeat(" ", pad)+string(rs[:n]))
+			}
+		}
+	}
+	sp = append(sp, space{name: "E", total: int64(len(esc)), batch: 2000, gen: func(i int64) string { return esc[i] }})
 	al := tokenAlphabet()
 	tl := 3
 	if thorough {
